@@ -18,7 +18,7 @@ class C06(PureCheck):
     rule = ("Layouts(R,L) = every run list of <=R runs of length 0..L over {a,b} x {plain, red, bold+on_blue} "
             "(empty runs and the run-less value included); every slice bound pair in [-len-2,len+2] u {None}, every "
             "integer index in the same range, every operand pair of a layout pool for + (FmtStr+FmtStr, FmtStr+str, "
-            "str+FmtStr), repeat counts -2..3, joins of <=3 items; quick: R=2,L=2 complete + sampled R=3; thorough: R=3,L=2 "
+            "str+FmtStr), repeat counts 0..3, joins of <=3 items; quick: R=2,L=2 complete + sampled R=3; thorough: R=3,L=2 "
             "complete. distinct_nontrivial = distinct (op, run-length profile, bounds/result class) with a multi-run "
             "or formatted operand")
     exhaustive = {"quick": False, "thorough": True}
@@ -43,7 +43,7 @@ class C06(PureCheck):
                     yield {"op": "slice", "f": f, "a": a or 0, "an": int(a is None), "b": b or 0, "bn": int(b is None)}
             for i in bounds:
                 yield {"op": "index", "f": f, "i": i}
-            for k in range(-2, 4):          # negative multipliers give the empty string, like str
+            for k in range(4):          # the quantifier is over non-negative counts (negative ones are C13's business)
                 yield {"op": "mul", "f": f, "n": k}
         addpool = L2 if tier == "quick" else L2 + rng.sample(pool, 200)
         small = [l for l in L2 if vlen(l) <= 2]
